@@ -240,3 +240,1341 @@ Proof.
     right. apply (eff_close_then (k_rp RDone) s c k H); intro L; ku_tac.
   - left. reflexivity.
 Qed.
+
+Lemma step_W_eff s c k :
+  aget c (conns s) = Some k ->
+  step_W c k s = s \/ exists k' new, conn_eff s (step_W c k s) c k k' new.
+Proof.
+  intro H. unfold step_W.
+  destruct (c_wp k) eqn:Hwp.
+  - destruct (c_latch k) eqn:L.
+    { right. eexists _, []. apply eff_set; [exact H | ku_tac]. }
+    destruct (c_sendq k) as [|x r] eqn:Hq; [left; reflexivity|].
+    right. destruct (c_wfail k) eqn:F.
+    + eexists _, []. apply eff_set; [exact H | ku_tac].
+    + destruct x; eexists _, []; (apply eff_set; [exact H | ku_tac]).
+  - right. apply (eff_close_then (k_wp WDone) s c k H); intro L; ku_tac.
+  - left. reflexivity.
+Qed.
+
+Lemma step_H_eff s c k :
+  aget c (conns s) = Some k ->
+  step_H c k s = s \/ exists k' new, conn_eff s (step_H c k s) c k k' new.
+Proof.
+  intro H. unfold step_H.
+  destruct (c_hp k) eqn:Hhp.
+  - destruct (c_latch k) eqn:L.
+    { right. eexists _, []. apply eff_set; [exact H | ku_tac]. }
+    destruct (c_status k) eqn:St; try (left; reflexivity).
+    right. destruct (now s <? c_lasthb k + hb_limit) eqn:T;
+      eexists _, []; (apply eff_set; [exact H | ku_tac]).
+  - right. apply (eff_close_then (k_hp HLoop) s c k H); intro L; ku_tac.
+  - left. reflexivity.
+Qed.
+
+(* Close() by someone who is not one of the three loops *)
+Lemma eff_ext_close s c k :
+  aget c (conns s) = Some k ->
+  exists k' new, conn_eff s (do_close c (set_conn c (k_cause k) s)) c k k' new.
+Proof.
+  intro H. unfold do_close.
+  assert (G : aget c (conns (set_conn c (k_cause k) s)) = Some (k_cause k)).
+  { unfold set_conn; simpl. apply aget_aset_same. }
+  rewrite G. change (c_latch (k_cause k)) with (c_latch k).
+  destruct (c_latch k) eqn:L.
+  - exists (k_cause k), []. apply eff_set; [exact H | ku_tac].
+  - exists (k_closed (k_cause k)), [KRemove].
+    unfold conn_eff, set_conn, post; simpl.
+    split; [exact H|]. split; [intro c'; rewrite !aget_aset; destruct (Z.eqb c' c); reflexivity|].
+    repeat (split; [reflexivity|]). ku_tac.
+Qed.
+
+(* ---- classification of the labels ---- *)
+Definition local_step (s s' : st) : Prop :=
+  dn s' = dn s /\ fr s' = fr s /\
+  exists c new,
+    q s' = q s ++ map (toev c) new /\
+    (new = [] \/ exists k, aget c (conns s) = Some k) /\
+    forall c', match aget c' (conns s) with
+               | Some k => exists k', aget c' (conns s') = Some k' /\
+                                      kupd k k' (if Z.eqb c' c then new else [])
+               | None => aget c' (conns s') = None
+               end.
+
+Definition quiet_step (s s' : st) : Prop :=
+  dn s' = dn s /\ fr s' = fr s /\ q s' = q s /\
+  forall c', match aget c' (conns s) with
+             | Some k => exists k', aget c' (conns s') = Some k' /\ kupd k k' []
+             | None => aget c' (conns s') = None
+             end.
+
+Lemma quiet_refl s : quiet_step s s.
+Proof.
+  repeat split. intro c'. destruct (aget c' (conns s)) as [k|]; [|reflexivity].
+  exists k. split; [reflexivity | apply kupd_refl].
+Qed.
+
+Lemma flips_false_mono k k' : flips k k' = false -> c_latch k = false -> c_latch k' = false.
+Proof. unfold flips. intros F L. rewrite L in F. simpl in F. exact F. Qed.
+
+Lemma kupd_nil_flips k k' : kupd k k' [] -> flips k k' = false.
+Proof.
+  intro U. destruct (flips k k') eqn:F; [|reflexivity].
+  apply (ku_flip _ _ _ U) in F. discriminate.
+Qed.
+
+Lemma kupd_trans_nil k k1 k2 : kupd k k1 [] -> kupd k1 k2 [] -> kupd k k2 [].
+Proof.
+  intros U1 U2.
+  pose proof (kupd_nil_flips _ _ U1) as F1. pose proof (kupd_nil_flips _ _ U2) as F2.
+  assert (F : flips k k2 = false).
+  { unfold flips. destruct (c_latch k) eqn:L; [reflexivity|]. simpl.
+    apply (flips_false_mono _ _ F2). apply (flips_false_mono _ _ F1). exact L. }
+  constructor.
+  - intro L. apply (ku_latch _ _ _ U2). apply (ku_latch _ _ _ U1). exact L.
+  - left. reflexivity.
+  - rewrite F. split; discriminate.
+  - rewrite (ku_ncb _ _ _ U2), (ku_ncb _ _ _ U1), F, F1, F2. lia.
+  - intro G. apply (ku_good _ _ _ U2). apply (ku_good _ _ _ U1). exact G.
+  - destruct (ku_order _ _ _ U1) as (a1 & E1 & S1). destruct (ku_order _ _ _ U2) as (a2 & E2 & S2).
+    exists (a1 ++ a2). split; [rewrite E2, E1, app_assoc; reflexivity|].
+    simpl in *. eapply subseq_trans; [exact S2|].
+    rewrite app_assoc. apply subseq_app; [exact S1 | apply subseq_refl].
+Qed.
+
+Lemma quiet_trans s s1 s2 : quiet_step s s1 -> quiet_step s1 s2 -> quiet_step s s2.
+Proof.
+  intros (D1 & F1 & Q1 & C1) (D2 & F2 & Q2 & C2).
+  split; [congruence|]. split; [congruence|]. split; [congruence|].
+  intro c'. specialize (C1 c'). specialize (C2 c').
+  destruct (aget c' (conns s)) as [k|].
+  - destruct C1 as (k1 & A1 & U1). rewrite A1 in C2. destruct C2 as (k2 & A2 & U2).
+    exists k2. split; [exact A2 | eapply kupd_trans_nil; eassumption].
+  - rewrite C1 in C2. exact C2.
+Qed.
+
+Lemma conn_eff_local s s' c k k' new : conn_eff s s' c k k' new -> local_step s s'.
+Proof.
+  intros (H & C & Q & D & F & _ & U). split; [exact D|]. split; [exact F|].
+  exists c, new. split; [exact Q|]. split; [right; exists k; exact H|]. intro c'. rewrite C.
+  destruct (Z.eqb_spec c' c) as [E|N].
+  - subst. rewrite H. exists k'. split; [reflexivity | exact U].
+  - destruct (aget c' (conns s)) as [k0|]; [|reflexivity].
+    exists k0. split; [reflexivity | apply kupd_refl].
+Qed.
+
+Lemma conn_eff_quiet s s' c k k' : conn_eff s s' c k k' [] -> quiet_step s s'.
+Proof.
+  intros (H & C & Q & D & F & _ & U). simpl in Q. rewrite app_nil_r in Q.
+  split; [exact D|]. split; [exact F|]. split; [exact Q|].
+  intro c'. rewrite C. destruct (Z.eqb_spec c' c) as [E|N].
+  - subst. rewrite H. exists k'. split; [reflexivity | exact U].
+  - destruct (aget c' (conns s)) as [k0|]; [|reflexivity].
+    exists k0. split; [reflexivity | apply kupd_refl].
+Qed.
+
+Lemma quiet_local s s' : quiet_step s s' -> local_step s s'.
+Proof.
+  intros (D & F & Q & C). split; [exact D|]. split; [exact F|].
+  exists 0, []. simpl. rewrite app_nil_r. split; [exact Q|]. split; [left; reflexivity|].
+  intro c'. specialize (C c'). destruct (aget c' (conns s)); [|exact C].
+  destruct C as (k' & A & U). exists k'. split; [exact A|]. destruct (Z.eqb c' 0); exact U.
+Qed.
+
+Lemma local_refl s : local_step s s.
+Proof. apply quiet_local, quiet_refl. Qed.
+
+Lemma push_conn_quiet s c : quiet_step s (push_conn c s).
+Proof.
+  unfold push_conn. destruct (aget c (conns s)) as [k|] eqn:H; [|apply quiet_refl].
+  destruct (c_status k) eqn:St; try destruct (c_latch k) eqn:L;
+    (eapply conn_eff_quiet; apply eff_set; [exact H | ku_tac]).
+Qed.
+
+Lemma push_one_quiet s c : quiet_step s (push_one s c).
+Proof.
+  unfold push_one. destruct (aget c (f_netid (fr s))) as [id|]; [|apply quiet_refl].
+  destruct (aget id (f_live (fr s))) as [c'|]; [apply push_conn_quiet | apply quiet_refl].
+Qed.
+
+Lemma push_all_quiet cs : forall s, quiet_step s (fold_left push_one cs s).
+Proof.
+  induction cs as [|c cs IH]; intro s; simpl; [apply quiet_refl|].
+  eapply quiet_trans; [apply push_one_quiet | apply IH].
+Qed.
+
+
+Lemma good_eof k :
+  good k ->
+  c_latch k = true \/ c_rp k = RClose \/ c_wp k = WClose \/ c_hp k = HClose \/
+  (true = true /\ c_rp k <> RDone).
+Proof.
+  intros (G1 & _). destruct (c_rp k) eqn:R;
+    try (right; right; right; right; split; [reflexivity | discriminate]).
+  left. apply G1. reflexivity.
+Qed.
+
+Lemma data_of_app a b : data_of (a ++ b) = data_of a ++ data_of b.
+Proof. unfold data_of. apply flat_map_app. Qed.
+
+Lemma kupd_send k p :
+  kupd k (let k1 := k_inbox (c_inbox k ++ [p]) k in
+          let k2 := match p with PData m => k_arrived (c_arrived k ++ [m]) k1 | _ => k1 end in
+          match p with PTruncEof => k_cause (k_eof k2) | _ => k2 end) [].
+Proof.
+  assert (O : forall a k', c_rp k' = c_rp k -> c_inbox k' = c_inbox k ++ [p] -> data_of [p] = a ->
+                           c_arrived k' = c_arrived k ++ a ->
+                           exists a0, c_arrived k' = c_arrived k ++ a0 /\ subseq (kmsgs [] ++ pend k') (pend k ++ a0)).
+  { intros a k' E1 E2 E3 E4. exists a. split; [exact E4|]. unfold pend. rewrite E1, E2, data_of_app, E3.
+    simpl. rewrite app_assoc. apply subseq_refl. }
+  destruct p; simpl;
+    (constructor;
+     [ simpl; auto | left; reflexivity
+     | unfold flips; simpl; split; [discriminate | destruct (c_latch k); discriminate]
+     | unfold flips; simpl; destruct (c_latch k); simpl; lia
+     | | ]);
+    try (apply (O []); simpl; rewrite ?app_nil_r; reflexivity);
+    try (apply (O [m]); reflexivity);
+    try (unfold good; simpl; tauto).
+  unfold good; simpl. intros G. pose proof (good_eof k G) as E. destruct G as (G1 & G2 & G3 & G4).
+  repeat split; auto.
+Qed.
+
+Inductive step_kind (s : st) (l : label) : Prop :=
+| sk_local : local_step s (step s l) -> step_kind s l
+| sk_connect c : l = LConnect c -> aget c (conns s) = None -> step_kind s l
+| sk_front e r : l = LFront -> q s = e :: r -> step_kind s l
+| sk_setnext v : l = LSetNext v -> step_kind s l.
+
+Lemma step_class s l : step_kind s l.
+Proof.
+  destruct l as [c|c p|c|c|d|c t|c|c|cs| |v].
+  - (* LConnect *) destruct (aget c (conns s)) eqn:H.
+    + apply sk_local. simpl. rewrite H. apply local_refl.
+    + eapply sk_connect; [reflexivity | exact H].
+  - (* LSend *) apply sk_local. simpl. destruct (aget c (conns s)) as [k|] eqn:H; [|apply local_refl].
+    destruct (c_eof k) eqn:E; [apply local_refl|].
+    eapply conn_eff_local. apply eff_set; [exact H|].
+    apply kupd_send.
+  - (* LEof *) apply sk_local. simpl. destruct (aget c (conns s)) as [k|] eqn:H; [|apply local_refl].
+    eapply conn_eff_local. apply eff_set; [exact H|]. 
+    constructor; [simpl; auto | left; reflexivity
+                 | unfold flips; simpl; split; [discriminate | destruct (c_latch k); discriminate]
+                 | unfold flips; simpl; destruct (c_latch k); simpl; lia
+                 | | ku_order_tac].
+    unfold good; simpl. intros G. pose proof (good_eof k G) as E. destruct G as (G1 & G2 & G3 & G4).
+    repeat split; auto.
+  - (* LWfail *) apply sk_local. simpl. destruct (aget c (conns s)) as [k|] eqn:H; [|apply local_refl].
+    eapply conn_eff_local. apply eff_set; [exact H | ku_tac].
+  - (* LTick *) apply sk_local. simpl. split; [reflexivity|]. split; [reflexivity|].
+    exists 0, []. simpl. rewrite app_nil_r. split; [reflexivity|]. split; [left; reflexivity|].
+    intro c'. destruct (aget c' (conns s)) as [k|]; [|reflexivity].
+    exists k. split; [reflexivity|]. destruct (Z.eqb c' 0); apply kupd_refl.
+  - (* LStep *) apply sk_local. simpl. destruct (aget c (conns s)) as [k|] eqn:H; [|apply local_refl].
+    destruct t.
+    + destruct (step_R_eff s c k H) as [E|(k' & new & E)]; [rewrite E; apply local_refl | eapply conn_eff_local; exact E].
+    + destruct (step_W_eff s c k H) as [E|(k' & new & E)]; [rewrite E; apply local_refl | eapply conn_eff_local; exact E].
+    + destruct (step_H_eff s c k H) as [E|(k' & new & E)]; [rewrite E; apply local_refl | eapply conn_eff_local; exact E].
+  - (* LKick *) apply sk_local. simpl.
+    destruct (aget c (f_netid (fr s))) as [id|]; [|apply local_refl].
+    destruct (aget id (f_live (fr s))) as [c'|]; [|apply local_refl].
+    destruct (aget c' (conns s)) as [k'|] eqn:H; [|apply local_refl].
+    destruct (eff_ext_close s c' k' H) as (k2 & new & E). eapply conn_eff_local. exact E.
+  - (* LCloseExt *) apply sk_local. simpl.
+    destruct (aget c (conns s)) as [k|] eqn:H; [|apply local_refl].
+    destruct (eff_ext_close s c k H) as (k2 & new & E). eapply conn_eff_local. exact E.
+  - (* LPush *) apply sk_local. simpl. apply quiet_local. apply push_all_quiet.
+  - (* LFront *) destruct (q s) as [|e r] eqn:Q.
+    + apply sk_local. simpl. rewrite Q. apply local_refl.
+    + eapply sk_front; [reflexivity | exact Q].
+  - eapply sk_setnext. reflexivity.
+Qed.
+
+(* ------------------------------------------------------------------ 3. invariants *)
+Definition msgs_of (c : Z) (l : list ev) : list Z :=
+  flat_map (fun e => match e with EMsg c' m => if Z.eqb c c' then [m] else [] | _ => [] end) l.
+
+Lemma msgs_of_app c a b : msgs_of c (a ++ b) = msgs_of c a ++ msgs_of c b.
+Proof. unfold msgs_of. apply flat_map_app. Qed.
+
+Lemma evs_of_app c a b : evs_of c (a ++ b) = evs_of c a ++ evs_of c b.
+Proof. unfold evs_of. apply filter_app. Qed.
+
+Lemma count_remove_app c a b : count_remove c (a ++ b) = (count_remove c a + count_remove c b)%nat.
+Proof. unfold count_remove. rewrite filter_app, app_length. reflexivity. Qed.
+
+Lemma msgs_of_evs c l : msgs_of c (evs_of c l) = msgs_of c l.
+Proof.
+  induction l as [|e l IH]; [reflexivity|]. simpl.
+  destruct e as [c'|c' m|c']; simpl; destruct (Z.eqb c c') eqn:E; simpl; rewrite ?E; rewrite IH; reflexivity.
+Qed.
+
+(* the events one connection emits in one step *)
+Lemma evs_toev_same c new : ~ In (EAdd c) (evs_of c (map (toev c) new)) /\
+                            msgs_of c (map (toev c) new) = kmsgs new.
+Proof.
+  induction new as [|e new (IH1 & IH2)]; simpl; [split; [tauto | reflexivity]|].
+  destruct e as [m|]; simpl; rewrite Z.eqb_refl; simpl; rewrite IH2; split; try reflexivity;
+    intros [E|I]; [discriminate | auto | discriminate | auto].
+Qed.
+
+Lemma evs_toev_other c c0 new : c <> c0 ->
+  evs_of c (map (toev c0) new) = [] /\ msgs_of c (map (toev c0) new) = [] /\
+  count_remove c (map (toev c0) new) = 0%nat.
+Proof.
+  intro N. assert (E : Z.eqb c c0 = false) by (apply Z.eqb_neq; exact N).
+  induction new as [|e new (IH1 & IH2 & IH3)]; simpl; [auto|].
+  unfold count_remove in *.
+  destruct e as [m|]; simpl; rewrite E; simpl; auto.
+Qed.
+
+Lemma count_remove_toev c new k k' : kupd k k' new ->
+  count_remove c (map (toev c) new) = if flips k k' then 1%nat else 0%nat.
+Proof.
+  intro U. destruct (ku_new _ _ _ U) as [E|[(m & E)|E]].
+  - subst. rewrite (kupd_nil_flips _ _ U). reflexivity.
+  - subst. destruct (flips k k') eqn:F.
+    + apply (ku_flip _ _ _ U) in F. discriminate.
+    + reflexivity.
+  - pose proof E as E'. apply (ku_flip _ _ _ U) in E'. rewrite E'. subst.
+    unfold count_remove. simpl. rewrite Z.eqb_refl. reflexivity.
+Qed.
+
+Lemma posted_local s s' c new :
+  dn s' = dn s -> q s' = q s ++ map (toev c) new -> posted s' = posted s ++ map (toev c) new.
+Proof. intros D Q. unfold posted. rewrite D, Q, app_assoc. reflexivity. Qed.
+
+Record CInv (s : st) : Prop := mkCInv {
+  iA : forall c, count_remove c (posted s) = (if latch_of s c then 1 else 0)%nat /\
+                 ncb_of s c = (if latch_of s c then 1 else 0);
+  iB : forall c k, aget c (conns s) = Some k -> good k;
+  iC2 : forall c, match aget c (conns s) with
+                  | None => evs_of c (posted s) = []
+                  | Some _ => exists tl, evs_of c (posted s) = EAdd c :: tl /\ ~ In (EAdd c) tl
+                  end;
+  iC4 : forall c k, aget c (conns s) = Some k ->
+                    subseq (msgs_of c (posted s) ++ pend k) (c_arrived k)
+}.
+
+Lemma flips_cases k k' :
+  (c_latch k = true -> c_latch k' = true) ->
+  (if c_latch k' then 1 else 0) = (if c_latch k then 1 else 0) + (if flips k k' then 1 else 0) /\
+  ((if c_latch k' then 1 else 0) = (if c_latch k then 1 else 0) + (if flips k k' then 1 else 0))%nat.
+Proof.
+  unfold flips. intro M. destruct (c_latch k); simpl.
+  - rewrite M by reflexivity. split; reflexivity.
+  - destruct (c_latch k'); split; reflexivity.
+Qed.
+
+Lemma cinv_local s s' : CInv s -> local_step s s' -> CInv s'.
+Proof.
+  intros I (D & F & c0 & new & Q & P & C).
+  pose proof (posted_local s s' c0 new D Q) as PE.
+  constructor.
+  - (* A *)
+    intro c. rewrite PE, count_remove_app.
+    destruct (iA s I c) as (A1 & A2). specialize (C c).
+    unfold latch_of, ncb_of, conn_of in *.
+    destruct (aget c (conns s)) as [k|] eqn:H.
+    + destruct C as (k' & H' & U). rewrite H'.
+      destruct (flips_cases k k' (ku_latch _ _ _ U)) as (Z1 & N1).
+      destruct (Z.eqb_spec c c0) as [E|N].
+      * subst c0. rewrite (count_remove_toev c new k k' U), A1, N1, (ku_ncb _ _ _ U), A2, Z1.
+        split; reflexivity.
+      * destruct (evs_toev_other c c0 new N) as (_ & _ & R). rewrite R, A1.
+        pose proof (kupd_nil_flips _ _ U) as F0. rewrite F0 in *.
+        rewrite N1, (ku_ncb _ _ _ U), A2, Z1, F0. split; lia.
+    + rewrite C. destruct (Z.eqb_spec c c0) as [E|N].
+      * subst c0. destruct P as [P|(k & P)]; [subst new; simpl; rewrite A1; split; [reflexivity | exact A2] | congruence].
+      * destruct (evs_toev_other c c0 new N) as (_ & _ & R). rewrite R, A1. split; [reflexivity | exact A2].
+  - (* B *)
+    intros c k' H'. specialize (C c). destruct (aget c (conns s)) as [k|] eqn:H; [|congruence].
+    destruct C as (k2 & H2 & U). rewrite H2 in H'. inv H'.
+    apply (ku_good _ _ _ U). apply (iB s I c k H).
+  - (* C2 *)
+    intro c. rewrite PE, evs_of_app. pose proof (iC2 s I c) as X. specialize (C c).
+    destruct (aget c (conns s)) as [k|] eqn:H.
+    + destruct C as (k' & H' & U). rewrite H'. destruct X as (tl & E & NI).
+      destruct (Z.eqb_spec c c0) as [E0|N].
+      * subst c0. exists (tl ++ evs_of c (map (toev c) new)). rewrite E. split; [reflexivity|].
+        intro J. apply in_app_or in J. destruct J as [J|J]; [auto|].
+        apply (proj1 (evs_toev_same c new)). exact J.
+      * destruct (evs_toev_other c c0 new N) as (R & _). rewrite R, app_nil_r. exists tl. auto.
+    + rewrite C. destruct (Z.eqb_spec c c0) as [E0|N].
+      * subst c0. destruct P as [P|(k & P)]; [subst new; simpl; rewrite app_nil_r; exact X | congruence].
+      * destruct (evs_toev_other c c0 new N) as (R & _). rewrite R, app_nil_r. exact X.
+  - (* C4 *)
+    intros c k' H'. specialize (C c). destruct (aget c (conns s)) as [k|] eqn:H; [|congruence].
+    destruct C as (k2 & H2 & U). rewrite H2 in H'. inv H'.
+    pose proof (iC4 s I c k H) as S.
+    rewrite PE, msgs_of_app.
+    assert (G : forall new0, kupd k k' new0 -> msgs_of c (map (toev c0) new) = kmsgs new0 ->
+                             subseq ((msgs_of c (posted s) ++ msgs_of c (map (toev c0) new)) ++ pend k') (c_arrived k')).
+    { intros new0 U0 E0. destruct (ku_order _ _ _ U0) as (a & Ea & Sa).
+      rewrite Ea, E0, <- app_assoc.
+      eapply subseq_trans; [apply subseq_app; [apply subseq_refl | exact Sa]|].
+      rewrite app_assoc. apply subseq_app; [exact S | apply subseq_refl]. }
+    destruct (Z.eqb_spec c c0) as [E0|N].
+    + subst c0. apply (G new U). apply (proj2 (evs_toev_same c new)).
+    + apply (G [] U). destruct (evs_toev_other c c0 new N) as (_ & R & _). exact R.
+Qed.
+
+Lemma good_conn0 : good conn0.
+Proof. unfold good, conn0; simpl. repeat split; intros; discriminate. Qed.
+
+Lemma evs_nil_msgs c l : evs_of c l = [] -> msgs_of c l = [].
+Proof. intro E. rewrite <- msgs_of_evs, E. reflexivity. Qed.
+
+Lemma evs_nil_count c l : evs_of c l = [] -> count_remove c l = 0%nat.
+Proof.
+  unfold count_remove. induction l as [|e l IH]; [reflexivity|]. simpl.
+  destruct e as [c'|c' m|c']; simpl; destruct (Z.eqb c c'); simpl; try discriminate; auto.
+Qed.
+
+Lemma cinv_connect s c : CInv s -> aget c (conns s) = None -> CInv (post (EAdd c) (set_conn c conn0 s)).
+Proof.
+  intros I H.
+  assert (PE : posted (post (EAdd c) (set_conn c conn0 s)) = posted s ++ [EAdd c]).
+  { unfold posted, post, set_conn; simpl. rewrite app_assoc. reflexivity. }
+  assert (CG : forall c', aget c' (conns (post (EAdd c) (set_conn c conn0 s))) =
+                          if Z.eqb c' c then Some conn0 else aget c' (conns s)).
+  { intro c'. unfold post, set_conn; simpl. apply aget_aset. }
+  constructor.
+  - intro c'. rewrite PE, count_remove_app. unfold latch_of, ncb_of, conn_of. rewrite CG.
+    destruct (iA s I c') as (A1 & A2). unfold latch_of, ncb_of, conn_of in *.
+    unfold count_remove at 2. simpl. rewrite Nat.add_0_r.
+    destruct (Z.eqb_spec c' c) as [E|N].
+    + subst. rewrite H in *. simpl. split; [exact A1 | reflexivity].
+    + split; assumption.
+  - intros c' k. rewrite CG. destruct (Z.eqb_spec c' c) as [E|N].
+    + intro X. inv X. apply good_conn0.
+    + apply (iB s I c').
+  - intro c'. rewrite PE, evs_of_app, CG. pose proof (iC2 s I c') as X. simpl.
+    destruct (Z.eqb_spec c' c) as [E|N].
+    + subst. rewrite H in X. rewrite X. simpl. exists []. split; [reflexivity | tauto].
+    + rewrite app_nil_r. exact X.
+  - intros c' k. rewrite CG, PE, msgs_of_app. simpl. rewrite app_nil_r.
+    destruct (Z.eqb_spec c' c) as [E|N].
+    + intro X. inv X. pose proof (iC2 s I c) as Y. rewrite H in Y.
+      rewrite (evs_nil_msgs _ _ Y). simpl. constructor.
+    + apply (iC4 s I c').
+Qed.
+
+(* states that differ only in what the front has consumed / in the front itself *)
+Lemma cinv_same s s' : CInv s -> conns s' = conns s -> posted s' = posted s -> CInv s'.
+Proof.
+  intros I C P. constructor.
+  - intro c. unfold latch_of, ncb_of, conn_of. rewrite P, C. apply (iA s I).
+  - intros c k. rewrite C. apply (iB s I).
+  - intro c. rewrite P, C. apply (iC2 s I).
+  - intros c k. rewrite P, C. apply (iC4 s I).
+Qed.
+
+Lemma cinv_init n : CInv (init_with n).
+Proof.
+  constructor; unfold init_with, posted, latch_of, ncb_of, conn_of; simpl.
+  - intro c. split; reflexivity.
+  - intros c k X. discriminate.
+  - intro c. reflexivity.
+  - intros c k X. discriminate.
+Qed.
+
+Lemma cinv_step s l : CInv s -> CInv (step s l).
+Proof.
+  intro I. destruct (step_class s l) as [L|c E H|e r E Q|v E].
+  - eapply cinv_local; eassumption.
+  - subst. simpl. rewrite H. apply cinv_connect; assumption.
+  - subst. simpl. rewrite Q. apply (cinv_same s); [exact I | reflexivity|].
+    unfold posted; simpl. rewrite Q, <- app_assoc. reflexivity.
+  - subst. simpl. apply (cinv_same s); [exact I | reflexivity | reflexivity].
+Qed.
+
+Lemma cinv_run tr : forall s, CInv s -> CInv (run_from s tr).
+Proof.
+  induction tr as [|l tr IH]; intros s I; simpl; [exact I|].
+  apply IH. apply cinv_step. exact I.
+Qed.
+
+(* ---- the front (D) ---- *)
+Inductive aph := ANone | AOpen | ARem | ABad.
+
+Definition astep (ph : aph) (e : ev) : aph :=
+  match ph, e with
+  | ANone, EAdd _ => AOpen
+  | ANone, _ => ANone
+  | AOpen, EAdd _ => ABad
+  | AOpen, EMsg _ _ => AOpen
+  | AOpen, ERemove _ => ARem
+  | ARem, EAdd _ => ABad
+  | ARem, _ => ARem
+  | ABad, _ => ABad
+  end.
+
+Definition hout (c id : Z) (ph : aph) (e : ev) : list hev :=
+  match ph, e with
+  | ANone, EAdd _ => [HAdd c id]
+  | AOpen, EMsg _ m => [HMsg c id m]
+  | AOpen, ERemove _ => closing c id
+  | _, _ => []
+  end.
+
+Fixpoint hrun (c id : Z) (ph : aph) (D : list ev) : list hev :=
+  match D with
+  | [] => []
+  | e :: r => hout c id ph e ++ hrun c id (astep ph e) r
+  end.
+
+Definition aphase (D : list ev) : aph := fold_left astep D ANone.
+
+Lemma hrun_snoc c id D e : forall ph,
+  hrun c id ph (D ++ [e]) = hrun c id ph D ++ hout c id (fold_left astep D ph) e.
+Proof.
+  induction D as [|x D IH]; intro ph; simpl; [rewrite app_nil_r; reflexivity|].
+  rewrite IH, app_assoc. reflexivity.
+Qed.
+
+Definition fphase (f : front) (c : Z) (D : list ev) : Prop :=
+  match aphase D with
+  | ANone => aget c (f_netid f) = None /\ hview c (f_hlog f) = []
+  | AOpen => exists id, aget c (f_netid f) = Some id /\ aget id (f_live f) = Some c /\
+                        hview c (f_hlog f) = hrun c id ANone D
+  | ARem => exists id, aget c (f_netid f) = Some id /\ aget id (f_live f) = None /\
+                       hview c (f_hlog f) = hrun c id ANone D
+  | ABad => True
+  end.
+
+Record FInv (f : front) (dn : list ev) : Prop := mkFInv {
+  f1 : forall c i, aget c (f_netid f) = Some i -> In i (f_used f) /\ i <> 0;
+  f2 : forall i c, aget i (f_live f) = Some c -> aget c (f_netid f) = Some i;
+  f3 : forall c1 c2 i, aget c1 (f_netid f) = Some i -> aget c2 (f_netid f) = Some i -> c1 = c2;
+  f4 : forall c, fphase f c (evs_of c dn)
+}.
+
+Lemma alloc_nonzero n : alloc n <> 0.
+Proof.
+  unfold alloc. destruct (Z.eqb_spec ((n + 1) mod two32) 0); [discriminate | assumption].
+Qed.
+
+Lemma hview_app c a b : hview c (a ++ b) = hview c a ++ hview c b.
+Proof. unfold hview. apply filter_app. Qed.
+
+Lemma ev_of_other c e : ev_of c e = false -> forall D, evs_of c (D ++ [e]) = evs_of c D.
+Proof. intros E D. rewrite evs_of_app. simpl. rewrite E. apply app_nil_r. Qed.
+
+Lemma ev_of_same c e : ev_of c e = true -> forall D, evs_of c (D ++ [e]) = evs_of c D ++ [e].
+Proof. intros E D. rewrite evs_of_app. simpl. rewrite E. reflexivity. Qed.
+
+(* the session a live id points to is the one that carries this id *)
+Lemma live_lookup f dn c id c' :
+  FInv f dn -> netid_of f c = id -> aget id (f_live f) = Some c' ->
+  c' = c /\ aget c (f_netid f) = Some id.
+Proof.
+  intros I E L. pose proof (f2 f dn I id c' L) as N'.
+  unfold netid_of in E. destruct (aget c (f_netid f)) as [i|] eqn:N.
+  - subst i. split; [eapply (f3 f dn I); eassumption | reflexivity].
+  - subst id. destruct (f1 f dn I c' 0 N') as (_ & X). contradiction.
+Qed.
+
+Lemma no_add_phase D : (forall c, ~ In (EAdd c) D) -> aphase D = ANone.
+Proof.
+  unfold aphase. induction D as [|e D IH] using rev_ind; intro H; [reflexivity|].
+  rewrite fold_left_app. simpl. rewrite IH.
+  - destruct e; [exfalso; apply (H c); apply in_or_app; right; left; reflexivity | reflexivity | reflexivity].
+  - intros c I. apply (H c). apply in_or_app. left. exact I.
+Qed.
+
+Lemma evs_of_In c e D : In e (evs_of c D) -> In e D.
+Proof. unfold evs_of. intro H. apply filter_In in H. tauto. Qed.
+
+Lemma evs_of_only c D c' : In (EAdd c') (evs_of c D) -> c' = c.
+Proof.
+  unfold evs_of. intro H. apply filter_In in H. destruct H as (_ & E). simpl in E.
+  apply Z.eqb_eq in E. auto.
+Qed.
+
+Lemma finv_event f dn e :
+  FInv f dn ->
+  (forall c, e = EAdd c -> ~ In (EAdd c) dn) ->
+  f_reused (front_ev f e) = false ->
+  FInv (front_ev f e) (dn ++ [e]).
+Proof.
+  intros I NA NR. destruct e as [ce|ce m|ce].
+  - (* EAdd *)
+    simpl in NR. apply orb_false_iff in NR. destruct NR as (_ & Fresh).
+    assert (NU : ~ In (alloc (f_next f)) (f_used f)).
+    { intro J. apply zmem_In in J. congruence. }
+    set (id := alloc (f_next f)) in *.
+    assert (N0 : aget ce (f_netid f) = None).
+    { pose proof (f4 f dn I ce) as P. unfold fphase in P.
+      rewrite no_add_phase in P; [tauto|].
+      intros c J. pose proof (evs_of_only _ _ _ J). subst c.
+      apply (NA ce eq_refl). eapply evs_of_In. exact J. }
+    constructor; simpl; fold id.
+    + intros c i. rewrite aget_aset. destruct (Z.eqb_spec c ce) as [E|N].
+      * intro X. inv X. split; [left; reflexivity | apply alloc_nonzero].
+      * intro X. destruct (f1 f dn I c i X). split; [right; assumption | assumption].
+    + intros i c. rewrite !aget_aset. destruct (Z.eqb_spec i id) as [E|N].
+      * intro X. assert (EC : c = ce) by congruence. rewrite EC, Z.eqb_refl, E. reflexivity.
+      * intro X. pose proof (f2 f dn I i c X) as Y.
+        destruct (Z.eqb_spec c ce) as [E2|N2]; [subst; congruence | exact Y].
+    + intros c1 c2 i. rewrite !aget_aset.
+      destruct (Z.eqb_spec c1 ce) as [E1|N1]; destruct (Z.eqb_spec c2 ce) as [E2|N2]; intros X Y.
+      * congruence.
+      * inv X. exfalso. apply NU. apply (f1 f dn I c2 _ Y).
+      * inv Y. exfalso. apply NU. apply (f1 f dn I c1 _ X).
+      * eapply (f3 f dn I); eassumption.
+    + intro c. pose proof (f4 f dn I c) as P. unfold fphase in *. simpl.
+      rewrite hview_app. simpl.
+      destruct (Z.eqb_spec c ce) as [E|N].
+      * subst c.
+        assert (G : forall c, ~ In (EAdd c) (evs_of ce dn)).
+        { intros c J. pose proof (evs_of_only _ _ _ J). subst c.
+          apply (NA ce eq_refl). eapply evs_of_In. exact J. }
+        assert (PH : aphase (evs_of ce dn) = ANone) by (apply no_add_phase; exact G).
+        rewrite PH in P. destruct P as (P1 & P2).
+        rewrite ev_of_same by (simpl; apply Z.eqb_refl).
+        assert (PH' : aphase (evs_of ce dn ++ [EAdd ce]) = AOpen).
+        { unfold aphase in *. rewrite fold_left_app, PH. reflexivity. }
+        rewrite PH'. exists id. rewrite !aget_aset_same.
+        split; [reflexivity|]. split; [reflexivity|].
+        rewrite hrun_snoc. fold (aphase (evs_of ce dn)). rewrite PH. simpl. rewrite P2.
+        assert (HR : hrun ce id ANone (evs_of ce dn) = []).
+        { clear - G. induction (evs_of ce dn) as [|x D IH]; [reflexivity|]. simpl.
+          destruct x; [exfalso; apply (G c); left; reflexivity | |]; simpl;
+            apply IH; intros c1 J; apply (G c1); right; exact J. }
+        rewrite HR. reflexivity.
+      * rewrite ev_of_other by (simpl; apply Z.eqb_neq; exact N).
+        rewrite app_nil_r.
+        assert (NN : aget c (aset ce id (f_netid f)) = aget c (f_netid f)) by (apply aget_aset_other; exact N).
+        rewrite NN.
+        destruct (aphase (evs_of c dn)); auto.
+        -- destruct P as (i & P1 & P2 & P3). exists i.
+           assert (i <> id) by (intro; subst; apply NU; apply (f1 f dn I c _ P1)).
+           rewrite aget_aset_other by assumption. auto.
+        -- destruct P as (i & P1 & P2 & P3). exists i.
+           assert (i <> id) by (intro; subst; apply NU; apply (f1 f dn I c _ P1)).
+           rewrite aget_aset_other by assumption. auto.
+  - (* EMsg *)
+    simpl in *. destruct (aget (netid_of f ce) (f_live f)) as [c'|] eqn:L.
+    + destruct (live_lookup f dn ce _ c' I eq_refl L) as (E & N). subst c'.
+      set (id := netid_of f ce) in *.
+      constructor; simpl; try apply I.
+      intro c. pose proof (f4 f dn I c) as P. unfold fphase in *. simpl. rewrite hview_app. simpl.
+      destruct (Z.eqb_spec c ce) as [E|N'].
+      * subst c. rewrite ev_of_same by (simpl; apply Z.eqb_refl).
+        unfold aphase in *. rewrite fold_left_app. simpl.
+        destruct (fold_left astep (evs_of ce dn) ANone) eqn:PH; simpl.
+        -- destruct P as (P1 & _). congruence.
+        -- destruct P as (i & P1 & P2 & P3). exists i.
+           split; [exact P1|]. split; [exact P2|].
+           rewrite hrun_snoc, PH, P3. simpl.
+           assert (EI : i = id) by congruence. rewrite EI. reflexivity.
+        -- destruct P as (i & P1 & P2 & P3). assert (i = id) by congruence. subst i. congruence.
+        -- exact Logic.I.
+      * rewrite ev_of_other by (simpl; apply Z.eqb_neq; exact N'). rewrite app_nil_r. exact P.
+    + constructor; try apply I.
+      intro c. pose proof (f4 f dn I c) as P. unfold fphase in *.
+      destruct (Z.eqb_spec c ce) as [E|N'].
+      * subst c. rewrite ev_of_same by (simpl; apply Z.eqb_refl).
+        unfold aphase in *. rewrite fold_left_app. simpl.
+        destruct (fold_left astep (evs_of ce dn) ANone) eqn:PH; simpl; auto.
+        -- destruct P as (i & P1 & P2 & P3). unfold netid_of in L. rewrite P1 in L. congruence.
+        -- destruct P as (i & P1 & P2 & P3). exists i. split; [exact P1|]. split; [exact P2|].
+           rewrite hrun_snoc, PH. simpl. rewrite app_nil_r. exact P3.
+      * rewrite ev_of_other by (simpl; apply Z.eqb_neq; exact N'). exact P.
+  - (* ERemove *)
+    simpl in *. destruct (aget (netid_of f ce) (f_live f)) as [c'|] eqn:L.
+    + destruct (live_lookup f dn ce _ c' I eq_refl L) as (E & N). subst c'.
+      set (id := netid_of f ce) in *.
+      constructor; simpl; try apply I.
+      * intros i c. rewrite aget_adel. destruct (Z.eqb i id); [discriminate | apply (f2 f dn I)].
+      * intro c. pose proof (f4 f dn I c) as P. unfold fphase in *. simpl. rewrite hview_app. simpl.
+        destruct (Z.eqb_spec c ce) as [E|N'].
+        -- subst c. rewrite ev_of_same by (simpl; apply Z.eqb_refl).
+           unfold aphase in *. rewrite fold_left_app. simpl.
+           destruct (fold_left astep (evs_of ce dn) ANone) eqn:PH; simpl.
+           ++ destruct P as (P1 & _). congruence.
+           ++ destruct P as (i & P1 & P2 & P3). exists i.
+              assert (EI : i = id) by congruence.
+              split; [exact P1|]. split; [rewrite EI; apply aget_adel_same|].
+              rewrite hrun_snoc, PH, P3. simpl. rewrite EI. reflexivity.
+           ++ destruct P as (i & P1 & P2 & P3). assert (i = id) by congruence. subst i. congruence.
+           ++ exact Logic.I.
+        -- rewrite ev_of_other by (simpl; apply Z.eqb_neq; exact N'). rewrite app_nil_r.
+           destruct (aphase (evs_of c dn)); auto.
+           ++ destruct P as (i & P1 & P2 & P3). exists i.
+              assert (i <> id) by (intro; subst i; apply N'; eapply (f3 f dn I); eassumption).
+              rewrite aget_adel_other by assumption. auto.
+           ++ destruct P as (i & P1 & P2 & P3). exists i.
+              assert (i <> id) by (intro; subst i; apply N'; eapply (f3 f dn I); eassumption).
+              rewrite aget_adel_other by assumption. auto.
+    + constructor; try apply I.
+      intro c. pose proof (f4 f dn I c) as P. unfold fphase in *.
+      destruct (Z.eqb_spec c ce) as [E|N'].
+      * subst c. rewrite ev_of_same by (simpl; apply Z.eqb_refl).
+        unfold aphase in *. rewrite fold_left_app. simpl.
+        destruct (fold_left astep (evs_of ce dn) ANone) eqn:PH; simpl; auto.
+        -- destruct P as (i & P1 & P2 & P3). unfold netid_of in L. rewrite P1 in L. congruence.
+        -- destruct P as (i & P1 & P2 & P3). exists i. split; [exact P1|]. split; [exact P2|].
+           rewrite hrun_snoc, PH. simpl. rewrite app_nil_r. exact P3.
+      * rewrite ev_of_other by (simpl; apply Z.eqb_neq; exact N'). exact P.
+Qed.
+
+Lemma reused_mono f e : f_reused (front_ev f e) = false -> f_reused f = false.
+Proof.
+  destruct e as [c|c m|c]; simpl.
+  - intro H. apply orb_false_iff in H. tauto.
+  - destruct (aget (netid_of f c) (f_live f)); auto.
+  - destruct (aget (netid_of f c) (f_live f)); auto.
+Qed.
+
+Lemma finv_init n : FInv (front0 n) [].
+Proof.
+  constructor; simpl; try (intros; discriminate).
+  intro c. unfold fphase. simpl. split; reflexivity.
+Qed.
+
+Lemma finv_next f dn v :
+  FInv f dn -> FInv (mkFront v (f_live f) (f_netid f) (f_hlog f) (f_used f) (f_reused f)) dn.
+Proof.
+  intro I. constructor; simpl; try apply I.
+Qed.
+
+Definition DInv (s : st) : Prop := f_reused (fr s) = false -> FInv (fr s) (dn s).
+
+Lemma add_not_consumed s c r :
+  CInv s -> q s = EAdd c :: r -> ~ In (EAdd c) (dn s).
+Proof.
+  intros I Q J. pose proof (iC2 s I c) as X.
+  assert (P : evs_of c (posted s) = evs_of c (dn s) ++ EAdd c :: evs_of c r).
+  { unfold posted. rewrite Q, evs_of_app. simpl. rewrite Z.eqb_refl. reflexivity. }
+  rewrite P in X.
+  assert (J' : In (EAdd c) (evs_of c (dn s))).
+  { unfold evs_of. apply filter_In. split; [exact J | simpl; apply Z.eqb_refl]. }
+  destruct (aget c (conns s)).
+  - destruct X as (tl & E & NI). destruct (evs_of c (dn s)) as [|x D]; [contradiction|].
+    simpl in E. inv E. apply NI. apply in_or_app. right. left. reflexivity.
+  - destruct (evs_of c (dn s)); [contradiction | discriminate].
+Qed.
+
+Lemma dinv_step s l : CInv s -> DInv s -> DInv (step s l).
+Proof.
+  intros I D. destruct (step_class s l) as [(D1 & F1 & _)|c E H|e r E Q|v E]; unfold DInv in *.
+  - rewrite D1, F1. exact D.
+  - subst. simpl. rewrite H. simpl. exact D.
+  - subst. simpl. rewrite Q. simpl. intro NR.
+    apply finv_event; [apply D; eapply reused_mono; exact NR | | exact NR].
+    intros c Ee. subst e. eapply add_not_consumed; eassumption.
+  - subst. simpl. intro NR. apply finv_next. apply D. exact NR.
+Qed.
+
+Lemma inv_run tr : forall s, CInv s -> DInv s -> CInv (run_from s tr) /\ DInv (run_from s tr).
+Proof.
+  induction tr as [|l tr IH]; intros s I D; simpl; [split; assumption|].
+  apply IH; [apply cinv_step; exact I | apply dinv_step; assumption].
+Qed.
+
+Lemma inv_reach n tr :
+  CInv (run_from (init_with n) tr) /\ DInv (run_from (init_with n) tr).
+Proof.
+  apply inv_run; [apply cinv_init | intros _; apply finv_init].
+Qed.
+
+(* ---- what the automaton prints for a well-formed event list ---- *)
+Lemma rem_run c id D : (forall c', ~ In (EAdd c') D) ->
+  fold_left astep D ARem = ARem /\ hrun c id ARem D = [].
+Proof.
+  induction D as [|e D IH]; intro NA; [split; reflexivity|]. simpl.
+  assert (NA' : forall c', ~ In (EAdd c') D) by (intros c' J; apply (NA c'); right; exact J).
+  destruct e as [c'|c' m|c']; [exfalso; apply (NA c'); left; reflexivity | |]; simpl; apply IH; exact NA'.
+Qed.
+
+Lemma open_run c id D :
+  (forall e, In e D -> ev_of c e = true) -> (forall c', ~ In (EAdd c') D) ->
+  (fold_left astep D AOpen = AOpen /\ count_remove c D = 0%nat /\
+   hrun c id AOpen D = map (HMsg c id) (msgs_of c D)) \/
+  (fold_left astep D AOpen = ARem /\ (0 < count_remove c D)%nat /\
+   hrun c id AOpen D = map (HMsg c id) (msgs_before_remove c D) ++ closing c id /\
+   subseq (msgs_before_remove c D) (msgs_of c D)).
+Proof.
+  induction D as [|e D IH]; intros AC NA.
+  - left. repeat split; reflexivity.
+  - assert (NA' : forall c', ~ In (EAdd c') D) by (intros c' J; apply (NA c'); right; exact J).
+    assert (AC' : forall e, In e D -> ev_of c e = true) by (intros x J; apply AC; right; exact J).
+    pose proof (AC e (or_introl eq_refl)) as Ee.
+    destruct e as [c'|c' m|c']; simpl in Ee.
+    + exfalso. apply (NA c'). left. reflexivity.
+    + simpl. rewrite Ee. unfold count_remove in *. simpl.
+      destruct (IH AC' NA') as [(P1 & P2 & P3)|(P1 & P2 & P3 & P4)].
+      * left. rewrite P1, P2, P3. repeat split; reflexivity.
+      * right. rewrite P1, P3. split; [reflexivity|]. split; [exact P2|]. split; [reflexivity|].
+        simpl. apply subseq_take. exact P4.
+    + right. simpl. rewrite Ee. unfold count_remove. simpl. rewrite Ee. simpl.
+      destruct (rem_run c id D NA') as (R1 & R2). rewrite R1, R2.
+      split; [reflexivity|]. split; [lia|]. split; [reflexivity | constructor].
+Qed.
+
+Lemma evs_of_all c l e : In e (evs_of c l) -> ev_of c e = true.
+Proof. unfold evs_of. intro H. apply filter_In in H. tauto. Qed.
+
+Lemma msgs_of_prefix c a b : subseq (msgs_of c a) (msgs_of c (a ++ b)).
+Proof. rewrite msgs_of_app. apply subseq_app_l. apply subseq_refl. Qed.
+
+(* the shape of the handler log of one connection, given what has been consumed *)
+Lemma hview_shape s c :
+  CInv s -> FInv (fr s) (dn s) ->
+  match aget c (conns s) with
+  | None => hview c (hlog_of s) = [] /\ evs_of c (dn s) = []
+  | Some k =>
+      (hview c (hlog_of s) = [] /\ evs_of c (dn s) = []) \/
+      exists id tl,
+        evs_of c (dn s) = EAdd c :: tl /\ (forall c', ~ In (EAdd c') tl) /\
+        aget c (f_netid (fr s)) = Some id /\
+        ((count_remove c tl = 0%nat /\ aget id (f_live (fr s)) = Some c /\
+          hview c (hlog_of s) = life_open c id (msgs_of c tl)) \/
+         ((0 < count_remove c tl)%nat /\ aget id (f_live (fr s)) = None /\
+          hview c (hlog_of s) = life_open c id (msgs_before_remove c tl) ++ closing c id /\
+          subseq (msgs_before_remove c tl) (msgs_of c tl)))
+  end.
+Proof.
+  intros I F. pose proof (iC2 s I c) as X. pose proof (f4 _ _ F c) as P.
+  unfold posted in X. rewrite evs_of_app in X. unfold hlog_of. unfold fphase in P.
+  destruct (aget c (conns s)) as [k|].
+  - destruct X as (tl & E & NI).
+    destruct (evs_of c (dn s)) as [|e D] eqn:ED.
+    + left. simpl in P. tauto.
+    + right. simpl in E. inv E.
+      assert (NA : forall c', ~ In (EAdd c') D).
+      { intros c' J. assert (c' = c).
+        { apply (evs_of_only c (dn s)). rewrite ED. right. exact J. }
+        subst c'. apply NI. apply in_or_app. left. exact J. }
+      assert (AC : forall e, In e D -> ev_of c e = true).
+      { intros e J. apply (evs_of_all c (dn s)). rewrite ED. right. exact J. }
+      unfold aphase in P. simpl in P.
+      destruct (open_run c 0 D AC NA) as [(P1 & P2 & _)|(P1 & P2 & _)]; rewrite P1 in P;
+        destruct P as (id & P4 & P5 & P3); exists id, D; (split; [reflexivity|]); (split; [exact NA|]);
+        (split; [exact P4|]); rewrite P3; unfold life_open.
+      * left. split; [exact P2|]. split; [exact P5|].
+        destruct (open_run c id D AC NA) as [(Q1 & Q2 & Q3)|(Q1 & _)]; [|congruence].
+        rewrite Q3. reflexivity.
+      * right. split; [exact P2|]. split; [exact P5|].
+        destruct (open_run c id D AC NA) as [(Q1 & _)|(Q1 & Q2 & Q3 & Q4)]; [congruence|].
+        rewrite Q3. split; [reflexivity | exact Q4].
+  - apply app_eq_nil in X. destruct X as (X & _). rewrite X in P. simpl in P. split; tauto.
+Qed.
+
+(* ------------------------------------------------------------------ 4. theorems *)
+(* single latch: what ONE step posts and does to the latch of c *)
+Definition flipped (s s' : st) (c : Z) : bool := negb (latch_of s c) && latch_of s' c.
+
+Lemma single_latch_step s l c :
+  exists new,
+    posted (step s l) = posted s ++ new /\
+    count_remove c new = (if flipped s (step s l) c then 1 else 0)%nat /\
+    ncb_of (step s l) c = ncb_of s c + (if flipped s (step s l) c then 1 else 0) /\
+    (latch_of s c = true -> latch_of (step s l) c = true).
+Proof.
+  unfold flipped, latch_of, ncb_of, conn_of.
+  destruct (step_class s l) as [(D & F & c0 & new & Q & P & C)|c0 E H|e r E Q|v E].
+  - exists (map (toev c0) new). split; [apply posted_local; assumption|].
+    specialize (C c). destruct (aget c (conns s)) as [k|] eqn:H.
+    + destruct C as (k' & H' & U). rewrite H'. fold (flips k k').
+      destruct (Z.eqb_spec c c0) as [E|N].
+      * subst c0. rewrite (count_remove_toev c new k k' U), (ku_ncb _ _ _ U).
+        split; [reflexivity|]. split; [reflexivity | apply (ku_latch _ _ _ U)].
+      * destruct (evs_toev_other c c0 new N) as (_ & _ & R). rewrite R.
+        rewrite (ku_ncb _ _ _ U), (kupd_nil_flips _ _ U).
+        split; [reflexivity|]. split; [reflexivity | apply (ku_latch _ _ _ U)].
+    + rewrite C. simpl. destruct (Z.eqb_spec c c0) as [E|N].
+      * subst c0. destruct P as [P|(k & P)]; [subst new; simpl | congruence].
+        split; [reflexivity|]. split; [lia | auto].
+      * destruct (evs_toev_other c c0 new N) as (_ & _ & R). rewrite R.
+        split; [reflexivity|]. split; [lia | auto].
+  - subst. simpl. rewrite H. exists [EAdd c0].
+    split; [unfold posted, post, set_conn; simpl; rewrite app_assoc; reflexivity|].
+    unfold post, set_conn; simpl. rewrite aget_aset.
+    destruct (Z.eqb_spec c c0) as [E|N].
+    + subst. rewrite H. simpl. split; [reflexivity|]. split; [reflexivity | auto].
+    + destruct (aget c (conns s)) as [k|]; simpl;
+        [destruct (c_latch k); simpl|]; (split; [reflexivity|]); (split; [lia | auto]).
+  - subst. simpl. rewrite Q. exists []. simpl.
+    split; [unfold posted; simpl; rewrite Q, app_nil_r, <- app_assoc; reflexivity|].
+    destruct (aget c (conns s)) as [k|]; simpl;
+      [destruct (c_latch k); simpl|]; (split; [reflexivity|]); (split; [lia | auto]).
+  - subst. simpl. exists []. split; [unfold posted; simpl; rewrite app_nil_r; reflexivity|].
+    destruct (aget c (conns s)) as [k|]; simpl;
+      [destruct (c_latch k); simpl|]; (split; [reflexivity|]); (split; [lia | auto]).
+Qed.
+
+Lemma remove_once n tr c :
+  let s := run_from (init_with n) tr in
+  count_remove c (posted s) = (if latch_of s c then 1 else 0)%nat /\
+  ncb_of s c = (if latch_of s c then 1 else 0).
+Proof. simpl. destruct (inv_reach n tr) as (I & _). apply (iA _ I). Qed.
+
+Lemma count_remove_evs c l : count_remove c (evs_of c l) = count_remove c l.
+Proof.
+  unfold count_remove, evs_of. induction l as [|e l IH]; [reflexivity|]. simpl.
+  destruct e as [c'|c' m|c']; simpl; destruct (Z.eqb c c') eqn:E; simpl; rewrite ?E; simpl; rewrite IH; reflexivity.
+Qed.
+
+Lemma msgs_before_remove_evs c l : msgs_before_remove c (evs_of c l) = msgs_before_remove c l.
+Proof.
+  induction l as [|e l IH]; [reflexivity|]. simpl.
+  destruct e as [c'|c' m|c']; simpl; destruct (Z.eqb c c') eqn:E; simpl; rewrite ?E; try rewrite IH; reflexivity.
+Qed.
+
+Lemma lifecycle_prefix n tr c :
+  let s := run_from (init_with n) tr in
+  f_reused (fr s) = false ->
+  life_prefix c (hview c (hlog_of s)) (arrived_of s c).
+Proof.
+  simpl. intro NR. destruct (inv_reach n tr) as (I & D). specialize (D NR).
+  set (s := run_from (init_with n) tr) in *.
+  pose proof (hview_shape s c I D) as X. unfold arrived_of, conn_of.
+  destruct (aget c (conns s)) as [k|] eqn:H.
+  - destruct X as [(X & _)|(id & tl & E & NA & _ & X)]; [left; exact X|].
+    right.
+    assert (S : subseq (msgs_of c tl) (c_arrived k)).
+    { pose proof (iC4 s I c k H) as S4. apply subseq_app_inv_r in S4.
+      eapply subseq_trans; [|exact S4].
+      replace (msgs_of c tl) with (msgs_of c (dn s)).
+      - unfold posted. apply msgs_of_prefix.
+      - rewrite <- msgs_of_evs, E. simpl. reflexivity. }
+    destruct X as [(_ & _ & X)|(_ & _ & X & S2)].
+    + exists id, (msgs_of c tl). split; [exact S|]. left. exact X.
+    + exists id, (msgs_before_remove c tl). split; [eapply subseq_trans; eassumption|]. right. exact X.
+  - left. tauto.
+Qed.
+
+(* a thread of c that is at a Close, or a reader that has EOF waiting, can move *)
+Lemma set_conn_moved s c k k' :
+  aget c (conns s) = Some k -> k' <> k -> set_conn c k' s <> s.
+Proof.
+  intros H N E. apply (f_equal (fun x => aget c (conns x))) in E. simpl in E.
+  rewrite aget_aset_same, H in E. congruence.
+Qed.
+
+Lemma post_moved s e s0 : q s0 = q s -> post e s0 <> s.
+Proof.
+  intros Q E. apply (f_equal (fun x => length (q x))) in E. simpl in E.
+  rewrite app_length, Q in E. simpl in E. lia.
+Qed.
+
+Lemma close_then_moves f s c k :
+  aget c (conns s) = Some k -> c_latch k = false -> close_then f c s <> s.
+Proof.
+  intros H L. unfold close_then, do_close. rewrite H, L.
+  assert (G : aget c (conns (post (ERemove c) (set_conn c (k_closed k) s))) = Some (k_closed k)).
+  { unfold post, set_conn; simpl. apply aget_aset_same. }
+  rewrite G. intro E. apply (f_equal (fun x => length (q x))) in E. simpl in E.
+  rewrite app_length in E. simpl in E. lia.
+Qed.
+
+Lemma rp_neq k x : c_rp k <> x -> k_rp x k <> k.
+Proof. intros N E. apply (f_equal c_rp) in E. simpl in E. congruence. Qed.
+
+Lemma stuck_latch s c k :
+  aget c (conns s) = Some k -> good k -> c_cause k = true -> stuck s c -> c_latch k = true.
+Proof.
+  intros H (G1 & G2 & G3 & G4) Ca St.
+  destruct (c_latch k) eqn:L; [reflexivity | exfalso].
+  destruct (G4 Ca) as [X|[X|[X|[X|(Xe & Xr)]]]]; [discriminate| | | |].
+  - specialize (St TR). simpl in St. rewrite H in St. unfold step_R in St. rewrite X in St.
+    revert St. apply (close_then_moves (k_rp RDone) s c k H L).
+  - specialize (St TW). simpl in St. rewrite H in St. unfold step_W in St. rewrite X in St.
+    revert St. apply (close_then_moves (k_wp WDone) s c k H L).
+  - specialize (St TH). simpl in St. rewrite H in St. unfold step_H in St. rewrite X in St.
+    revert St. apply (close_then_moves (k_hp HLoop) s c k H L).
+  - specialize (St TR). simpl in St. rewrite H in St. unfold step_R in St.
+    destruct (c_rp k) eqn:R.
+    + revert St. apply set_conn_moved with k; [exact H|]. apply rp_neq. rewrite R.
+      destruct (c_status k); discriminate.
+    + rewrite L in St. destruct (c_inbox k) as [|p r] eqn:Hin.
+      * rewrite Xe in St. revert St. apply set_conn_moved with k; [exact H|]. apply rp_neq. rewrite R. discriminate.
+      * revert St. destruct p; (apply set_conn_moved with k; [exact H|]);
+          intro E; apply (f_equal c_rp) in E; simpl in E; congruence.
+    + revert St.
+      destruct p; repeat match goal with |- context [if ?b then _ else _] => destruct b end;
+        try (apply post_moved; reflexivity);
+        (apply set_conn_moved with k; [exact H|]);
+        intro E; apply (f_equal c_rp) in E; simpl in E; congruence.
+    + revert St. apply (close_then_moves (k_rp RDone) s c k H L).
+    + contradiction.
+Qed.
+
+Lemma lifecycle_end n tr c :
+  let s := run_from (init_with n) tr in
+  f_reused (fr s) = false ->
+  cause_of s c = true -> stuck s c -> q s = [] ->
+  latch_of s c = true /\ ncb_of s c = 1 /\
+  exists id,
+    hview c (hlog_of s) =
+    life_open c id (msgs_before_remove c (posted s)) ++ closing c id /\
+    subseq (msgs_before_remove c (posted s)) (arrived_of s c).
+Proof.
+  simpl. intros NR Ca St Q. destruct (inv_reach n tr) as (I & D). specialize (D NR).
+  set (s := run_from (init_with n) tr) in *.
+  unfold cause_of, latch_of, ncb_of, arrived_of, conn_of in *.
+  destruct (aget c (conns s)) as [k|] eqn:H; [|discriminate].
+  pose proof (stuck_latch s c k H (iB s I c k H) Ca St) as L.
+  destruct (iA s I c) as (A1 & A2). unfold latch_of, ncb_of, conn_of in A1, A2. rewrite H, L in A1, A2.
+  split; [exact L|]. split; [exact A2|].
+  assert (PD : posted s = dn s) by (unfold posted; rewrite Q; apply app_nil_r).
+  pose proof (hview_shape s c I D) as X. rewrite H in X.
+  rewrite PD in *.
+  destruct X as [(_ & X)|(id & tl & E & NA & _ & X)].
+  - rewrite <- count_remove_evs, X in A1. discriminate.
+  - assert (CT : count_remove c tl = 1%nat).
+    { rewrite <- count_remove_evs, E in A1. unfold count_remove in *. simpl in A1. exact A1. }
+    assert (MB : msgs_before_remove c (dn s) = msgs_before_remove c tl).
+    { rewrite <- msgs_before_remove_evs, E. reflexivity. }
+    destruct X as [(X & _)|(_ & _ & X & S2)]; [lia|].
+    exists id. rewrite MB. split; [exact X|].
+    eapply subseq_trans; [exact S2|].
+    pose proof (iC4 s I c k H) as S4. apply subseq_app_inv_r in S4. rewrite PD in S4.
+    replace (msgs_of c tl) with (msgs_of c (dn s)); [exact S4|].
+    rewrite <- msgs_of_evs, E. reflexivity.
+Qed.
+
+(* ---- pushes ---- *)
+Lemma push_dead s c :
+  (forall id, aget c (f_netid (fr s)) = Some id -> aget id (f_live (fr s)) = None) ->
+  push_one s c = s.
+Proof.
+  intro H. unfold push_one. destruct (aget c (f_netid (fr s))) as [id|]; [|reflexivity].
+  rewrite (H id eq_refl). reflexivity.
+Qed.
+
+Lemma removed_dead n tr c id g :
+  let s := run_from (init_with n) tr in
+  f_reused (fr s) = false -> In (HRemove c id g) (hlog_of s) ->
+  exists id', aget c (f_netid (fr s)) = Some id' /\ aget id' (f_live (fr s)) = None.
+Proof.
+  simpl. intros NR J. destruct (inv_reach n tr) as (I & D). specialize (D NR).
+  set (s := run_from (init_with n) tr) in *.
+  assert (J' : In (HRemove c id g) (hview c (hlog_of s))).
+  { unfold hview. apply filter_In. split; [exact J | simpl; apply Z.eqb_refl]. }
+  pose proof (hview_shape s c I D) as X.
+  destruct (aget c (conns s)) as [k|].
+  - destruct X as [(X & _)|(id' & tl & _ & _ & N & [(_ & _ & X)|(_ & L & _)])].
+    + rewrite X in J'. contradiction.
+    + rewrite X in J'. unfold life_open in J'. destruct J' as [J'|J']; [discriminate|].
+      apply in_map_iff in J'. destruct J' as (m & E & _). discriminate.
+    + exists id'. split; assumption.
+  - destruct X as (X & _). rewrite X in J'. contradiction.
+Qed.
+
+Lemma push_fr cs s : fr (fold_left push_one cs s) = fr s.
+Proof. destruct (push_all_quiet cs s) as (_ & F & _). exact F. Qed.
+
+Lemma push_after_remove n tr c id g cs1 cs2 :
+  let s := run_from (init_with n) tr in
+  f_reused (fr s) = false -> In (HRemove c id g) (hlog_of s) ->
+  step s (LPush (cs1 ++ c :: cs2)) = step s (LPush (cs1 ++ cs2)).
+Proof.
+  simpl. intros NR J. destruct (removed_dead n tr c id g NR J) as (id' & N & L).
+  rewrite !fold_left_app. simpl. f_equal. apply push_dead.
+  rewrite push_fr. intros i E. congruence.
+Qed.
+
+(* pushes touch nothing but the connections they are addressed to *)
+Lemma push_conn_frame s c c' : c' <> c -> aget c' (conns (push_conn c s)) = aget c' (conns s).
+Proof.
+  intro N. unfold push_conn. destruct (aget c (conns s)) as [k|]; [|reflexivity].
+  destruct (c_status k); try destruct (c_latch k); unfold set_conn; simpl; apply aget_aset_other; exact N.
+Qed.
+
+Lemma push_frame cs : forall s c',
+  (forall c id, In c cs -> aget c (f_netid (fr s)) = Some id -> aget id (f_live (fr s)) <> Some c') ->
+  aget c' (conns (fold_left push_one cs s)) = aget c' (conns s).
+Proof.
+  induction cs as [|c cs IH]; intros s c' H; [reflexivity|]. simpl.
+  assert (F : fr (push_one s c) = fr s).
+  { destruct (push_one_quiet s c) as (_ & F & _). exact F. }
+  rewrite IH.
+  - unfold push_one. destruct (aget c (f_netid (fr s))) as [id|] eqn:N; [|reflexivity].
+    destruct (aget id (f_live (fr s))) as [c2|] eqn:L; [|reflexivity].
+    apply push_conn_frame. intro E. subst c2. apply (H c id (or_introl eq_refl) N). exact L.
+  - intros c0 id J. rewrite F. apply H. right. exact J.
+Qed.
+
+Lemma push_quiet_all s cs :
+  let s' := step s (LPush cs) in
+  q s' = q s /\ dn s' = dn s /\ fr s' = fr s /\ now s' = now s.
+Proof.
+  simpl. destruct (push_all_quiet cs s) as (D & F & Q & _).
+  repeat split; try assumption.
+  revert s D F Q. induction cs as [|c cs IH]; intros s D F Q; [reflexivity|]. simpl.
+  assert (N : now (push_one s c) = now s).
+  { unfold push_one. destruct (aget c (f_netid (fr s))) as [id|]; [|reflexivity].
+    destruct (aget id (f_live (fr s))) as [c2|]; [|reflexivity].
+    unfold push_conn. destruct (aget c2 (conns s)) as [k2|]; [|reflexivity].
+    destruct (c_status k2); try destruct (c_latch k2); reflexivity. }
+  rewrite <- N. destruct (push_all_quiet cs (push_one s c)) as (D' & F' & Q' & _).
+  apply IH; assumption.
+Qed.
+
+(* ---- id allocation ---- *)
+Fixpoint allocn (k : nat) (n : Z) : Z :=
+  match k with O => n | S k' => alloc (allocn k' n) end.
+
+Lemma alloc_closed n : 0 <= n <= M32 -> alloc n = n mod M32 + 1 /\ 1 <= alloc n <= M32.
+Proof.
+  unfold alloc, M32, two32. intro H.
+  destruct (Z.eqb_spec ((n + 1) mod 4294967296) 0); lia.
+Qed.
+
+Lemma allocn_closed k n : 0 <= n <= M32 ->
+  allocn (S k) n = nth_id n (Z.of_nat (S k)) /\ 1 <= allocn (S k) n <= M32.
+Proof.
+  intro H. induction k as [|k (IH1 & IH2)].
+  - simpl allocn. destruct (alloc_closed n H) as (A1 & A2). split; [|exact A2].
+    rewrite A1. unfold nth_id. f_equal. f_equal. lia.
+  - change (allocn (S (S k)) n) with (alloc (allocn (S k) n)).
+    destruct (alloc_closed (allocn (S k) n)) as (A1 & A2); [lia|]. split; [|exact A2].
+    rewrite A1, IH1.
+    replace (Z.of_nat (S (S k))) with (Z.of_nat (S k) + 1) by lia.
+    unfold nth_id, M32, two32 in *. clear IH1 IH2 A1 A2.
+    generalize (Z.of_nat (S k)). intro j. lia.
+Qed.
+
+Lemma nth_id_distinct n j1 j2 :
+  0 <= j1 < j2 -> j2 - j1 < M32 -> nth_id n j1 <> nth_id n j2.
+Proof. unfold nth_id, M32, two32. lia. Qed.
+
+Definition ids_of (s : st) : list Z := add_ids (hlog_of s).
+
+Lemma add_ids_app a b : add_ids (a ++ b) = add_ids a ++ add_ids b.
+Proof. unfold add_ids. apply flat_map_app. Qed.
+
+(* the ids handed out are the successive values of the counter; used = the same, reversed *)
+Record AInv (n : Z) (f : front) : Prop := mkAInv {
+  a_next : f_next f = allocn (length (add_ids (f_hlog f))) n;
+  a_ids : add_ids (f_hlog f) = map (fun j => allocn (S j) n) (seq 0 (length (add_ids (f_hlog f))));
+  a_used : f_used f = rev (add_ids (f_hlog f));
+  a_fresh : NoDup (add_ids (f_hlog f)) -> f_reused f = false
+}.
+
+Lemma ainv_event n f e : AInv n f -> AInv n (front_ev f e).
+Proof.
+  intro I. destruct e as [c|c m|c]; simpl.
+  - assert (L : length (add_ids (f_hlog f ++ [HAdd c (alloc (f_next f))])) = S (length (add_ids (f_hlog f)))).
+    { rewrite add_ids_app, app_length. simpl. apply Nat.add_1_r. }
+    constructor; cbn [f_next f_hlog f_used f_reused].
+    + rewrite L. cbn [allocn]. rewrite <- (a_next n f I). reflexivity.
+    + rewrite L. rewrite seq_S, map_app, Nat.add_0_l.
+      rewrite <- (a_ids n f I). change (map (fun j => allocn (S j) n) [length (add_ids (f_hlog f))])
+        with [alloc (allocn (length (add_ids (f_hlog f))) n)].
+      rewrite <- (a_next n f I). apply add_ids_app.
+    + rewrite add_ids_app, rev_app_distr. simpl. rewrite (a_used n f I). reflexivity.
+    + rewrite add_ids_app. simpl. intro ND. apply NoDup_remove in ND. rewrite app_nil_r in ND.
+      destruct ND as (ND & NI). rewrite (a_fresh n f I ND). simpl.
+      destruct (zmem (alloc (f_next f)) (f_used f)) eqn:Z; [|reflexivity].
+      apply zmem_In in Z. rewrite (a_used n f I), <- in_rev in Z. contradiction.
+  - destruct (aget (netid_of f c) (f_live f)); [|exact I].
+    constructor; simpl; rewrite ?add_ids_app; simpl; rewrite ?app_nil_r; apply I.
+  - destruct (aget (netid_of f c) (f_live f)); [|exact I].
+    constructor; simpl; rewrite ?add_ids_app; simpl; rewrite ?app_nil_r; apply I.
+Qed.
+
+Lemma no_setnext_cons l tr : no_setnext (l :: tr) -> no_setnext tr.
+Proof. intros H v J. apply (H v). right. exact J. Qed.
+
+Lemma ainv_run n tr : forall s, no_setnext tr -> AInv n (fr s) -> AInv n (fr (run_from s tr)).
+Proof.
+  induction tr as [|l tr IH]; intros s NS I; simpl; [exact I|].
+  apply IH; [eapply no_setnext_cons; exact NS|].
+  destruct (step_class s l) as [(_ & F & _)|c E H|e r E Q|v E].
+  - rewrite F. exact I.
+  - subst. simpl. rewrite H. simpl. exact I.
+  - subst. simpl. rewrite Q. simpl. apply ainv_event. exact I.
+  - exfalso. apply (NS v). left. exact E.
+Qed.
+
+Lemma ainv_reach n tr : no_setnext tr -> AInv n (fr (run_from (init_with n) tr)).
+Proof.
+  intro NS. apply ainv_run; [exact NS|]. constructor; simpl; auto.
+Qed.
+
+Lemma nth_map_seq (f : nat -> Z) k i d : (i < k)%nat -> nth i (map f (seq 0 k)) d = f i.
+Proof.
+  intro H. rewrite nth_indep with (d' := f 0%nat) by (rewrite map_length, seq_length; exact H).
+  rewrite map_nth, seq_nth by exact H. reflexivity.
+Qed.
+
+Lemma ids_sequence n tr j :
+  0 <= n <= M32 -> no_setnext tr ->
+  0 <= j < Z.of_nat (length (ids_of (run_from (init_with n) tr))) ->
+  zth (ids_of (run_from (init_with n) tr)) j = nth_id n (j + 1).
+Proof.
+  intros Hn NS Hj. pose proof (ainv_reach n tr NS) as I.
+  unfold ids_of, hlog_of in *. pose proof (a_ids _ _ I) as AI.
+  remember (add_ids (f_hlog (fr (run_from (init_with n) tr)))) as ids eqn:Eids.
+  unfold zth. rewrite AI.
+  rewrite nth_map_seq by lia.
+  destruct (allocn_closed (Z.to_nat j) n Hn) as (A & _). rewrite A. f_equal. lia.
+Qed.
+
+Lemma ids_unique n tr j1 j2 :
+  0 <= n <= M32 -> no_setnext tr ->
+  0 <= j1 < j2 -> j2 < Z.of_nat (length (ids_of (run_from (init_with n) tr))) ->
+  j2 - j1 < M32 ->
+  zth (ids_of (run_from (init_with n) tr)) j1 <> zth (ids_of (run_from (init_with n) tr)) j2.
+Proof.
+  intros Hn NS H1 H2 H3.
+  rewrite !ids_sequence by (try assumption; lia).
+  apply nth_id_distinct; lia.
+Qed.
+
+Lemma fresh_if_few n tr :
+  0 <= n <= M32 -> no_setnext tr ->
+  Z.of_nat (length (ids_of (run_from (init_with n) tr))) <= M32 ->
+  f_reused (fr (run_from (init_with n) tr)) = false.
+Proof.
+  intros Hn NS Len. pose proof (ainv_reach n tr NS) as I. apply (a_fresh _ _ I).
+  fold (hlog_of (run_from (init_with n) tr)). fold (ids_of (run_from (init_with n) tr)).
+  apply (NoDup_nth _ 0). intros i j Hi Hj E.
+  destruct (Nat.eq_dec i j) as [|N]; [assumption | exfalso].
+  assert (W : forall a b, (a < b)%nat -> (b < length (ids_of (run_from (init_with n) tr)))%nat ->
+                          nth a (ids_of (run_from (init_with n) tr)) 0 <> nth b (ids_of (run_from (init_with n) tr)) 0).
+  { intros a b Hab Hb. pose proof (ids_unique n tr (Z.of_nat a) (Z.of_nat b) Hn NS) as U.
+    unfold zth in U. rewrite !Nat2Z.id in U. apply U; lia. }
+  destruct (Nat.lt_ge_cases i j) as [L|G].
+  - apply (W i j L Hj). exact E.
+  - apply (W j i); [lia | exact Hi | symmetry; exact E].
+Qed.
+
+(* ---- the harness operations are schedules of the model ---- *)
+Definition reachable (s : st) : Prop := exists tr, s = run tr.
+
+Lemma reach_step s l : reachable s -> reachable (step s l).
+Proof.
+  intros (tr & E). exists (tr ++ [l]). unfold run, run_from in *. rewrite fold_left_app, <- E. reflexivity.
+Qed.
+
+Lemma reach_fold {X} (f : st -> X -> st) (l : list X) :
+  (forall s x, reachable s -> reachable (f s x)) -> forall s, reachable s -> reachable (fold_left f l s).
+Proof.
+  intro H. induction l as [|x l IH]; intros s R; simpl; [exact R | apply IH, H, R].
+Qed.
+
+Lemma reach_steps ls : forall s, reachable s -> reachable (fold_left step ls s).
+Proof. apply reach_fold. intros s x. apply reach_step. Qed.
+
+Lemma reach_settle_n k : forall s, reachable s -> reachable (settle_n k s).
+Proof.
+  induction k as [|k IH]; intros s R; simpl; [exact R|].
+  apply IH. unfold settle_round. apply reach_fold; [|exact R].
+  intros s0 ck R0. apply reach_steps. exact R0.
+Qed.
+
+Lemma reach_settle s : reachable s -> reachable (settle s).
+Proof.
+  intro R. unfold settle. apply reach_settle_n. unfold settle_H.
+  apply reach_fold; [|apply reach_settle_n; exact R].
+  intros s0 ck R0. destruct (c_latch (snd ck)); [apply reach_step|]; exact R0.
+Qed.
+
+Lemma reach_simple s o : reachable s -> reachable (exec_simple s o).
+Proof.
+  intro R. destruct o; cbn [exec_simple]; try exact R; try (apply reach_step; exact R).
+  - destruct (aget c (conns s)) as [k|]; [|exact R].
+    destruct (c_rp k); try exact R. apply reach_step. exact R.
+  - destruct (aget c (conns s)) as [k|]; [|exact R].
+    destruct (c_latch k); [exact R|].
+    destruct (hp_of (step s (LStep c TH)) c); repeat apply reach_step; exact R.
+Qed.
+
+Lemma reach_drain k : forall s, reachable s -> reachable (drain k s).
+Proof.
+  induction k as [|k IH]; intros s R; cbn [drain]; [exact R|].
+  destruct (q s); [exact R|]. apply IH. apply reach_step. exact R.
+Qed.
+
+Lemma reach_op1 s o : reachable s -> reachable (exec_op1 s o).
+Proof.
+  intro R. unfold exec_op1. apply reach_settle.
+  destruct o; try (apply reach_step; exact R); try (apply reach_simple; exact R).
+  - apply reach_drain. exact R.
+  - apply reach_fold; [|exact R]. intros s0 x. apply reach_simple.
+  - apply reach_fold; [|exact R]. intros s0 x. apply reach_simple.
+Qed.
+
+Lemma reach_op s o : reachable s -> reachable (exec_op s o).
+Proof.
+  intro R. destruct o; try (apply reach_op1; exact R).
+  cbn [exec_op]. apply reach_fold; [|exact R]. intros s0 x. apply reach_op1.
+Qed.
+
+Lemma exec_ops_reachable ops : exists tr, exec_ops ops = run tr.
+Proof.
+  unfold exec_ops. apply (reach_fold exec_op ops reach_op). exists []. reflexivity.
+Qed.
+
+Lemma exec_ops_alt_reachable ops : exists tr, exec_ops_alt ops = run tr.
+Proof.
+  unfold exec_ops_alt. apply (reach_fold exec_op_alt ops); [|exists []; reflexivity].
+  intros s o R. destruct o; try (apply reach_op; exact R).
+  cbn [exec_op_alt]. apply reach_settle. apply reach_fold; [|exact R]. intros s0 x. apply reach_simple.
+Qed.
+
+(* ---- the executable life-cycle check is the life-cycle predicate ---- *)
+Lemma hmsgs_open c id ms : hmsgs (map (HMsg c id) ms) = ms.
+Proof. induction ms as [|m ms IH]; [reflexivity | simpl; rewrite IH; reflexivity]. Qed.
+
+Lemma phase_open_run c id ms tail :
+  phase_run c (PhOpen id) (map (HMsg c id) ms ++ tail) = phase_run c (PhOpen id) tail.
+Proof.
+  induction ms as [|m ms IH]; [reflexivity|]. simpl. rewrite !Z.eqb_refl. simpl. exact IH.
+Qed.
+
+Lemma hmsgs_app a b : hmsgs (a ++ b) = hmsgs a ++ hmsgs b.
+Proof. unfold hmsgs. apply flat_map_app. Qed.
+
+Lemma life_b_complete c v arrived : life_prefix c v arrived -> life_b c v arrived = true.
+Proof.
+  intros [E|(id & ms & S & [E|E])]; subst v; unfold life_b.
+  - simpl. apply subseqb_complete. constructor.
+  - unfold life_open. simpl. rewrite Z.eqb_refl.
+    rewrite <- (app_nil_r (map (HMsg c id) ms)), phase_open_run. simpl.
+    rewrite app_nil_r, hmsgs_open. apply subseqb_complete. exact S.
+  - unfold life_open, closing. simpl. rewrite Z.eqb_refl.
+    rewrite phase_open_run. simpl. repeat (rewrite !Z.eqb_refl; simpl).
+    rewrite hmsgs_app, hmsgs_open. simpl. rewrite app_nil_r. apply subseqb_complete. exact S.
+Qed.
+
+Lemma phase_open_inv c id v : forall ph,
+  phase_run c (PhOpen id) v = Some ph ->
+  (ph = PhOpen id /\ v = map (HMsg c id) (hmsgs v)) \/
+  (ph = PhRem id /\ v = map (HMsg c id) (hmsgs v) ++ [HRemove c id true]) \/
+  (ph = PhDone /\ v = map (HMsg c id) (hmsgs v) ++ closing c id).
+Proof.
+  induction v as [|h v IH]; intros ph H; simpl in H.
+  - inv H. left. split; reflexivity.
+  - destruct h as [c' i|c' i m|m|c' i g|c' i]; simpl in H; try discriminate.
+    + destruct (Z.eqb_spec c c'); [|discriminate]. destruct (Z.eqb_spec id i); [|discriminate].
+      subst c' i. simpl in H.
+      destruct (IH ph H) as [(E1 & E2)|[(E1 & E2)|(E1 & E2)]]; simpl;
+        [left | right; left | right; right]; (split; [exact E1|]); f_equal; exact E2.
+    + destruct (Z.eqb_spec c c'); [|discriminate]. destruct (Z.eqb_spec id i); [|discriminate].
+      destruct g; [|discriminate]. subst c' i. simpl in H.
+      destruct v as [|h2 v2]; simpl in H.
+      * inv H. right. left. split; reflexivity.
+      * destruct h2 as [c2 i2|c2 i2 m2|m2|c2 i2 g2|c2 i2]; simpl in H; try discriminate.
+        destruct (Z.eqb_spec c c2); [|discriminate]. destruct (Z.eqb_spec id i2); [|discriminate].
+        subst c2 i2. simpl in H. destruct v2; simpl in H; [|discriminate].
+        inv H. right. right. split; reflexivity.
+Qed.
+
+Lemma life_b_sound c v arrived : life_b c v arrived = true -> life_prefix c v arrived.
+Proof.
+  unfold life_b. destruct v as [|h v]; [left; reflexivity|].
+  simpl. destruct h as [c' id|c' id m|m|c' id g|c' id]; simpl; try discriminate.
+  destruct (Z.eqb_spec c c'); [|discriminate]. subst c'.
+  destruct (phase_run c (PhOpen id) v) as [ph|] eqn:P; [|discriminate].
+  intro S. right. exists id, (hmsgs v).
+  destruct (phase_open_inv c id v ph P) as [(E1 & E2)|[(E1 & E2)|(E1 & E2)]]; subst ph; try discriminate.
+  - split; [apply subseqb_sound; exact S|]. left. unfold life_open. f_equal. exact E2.
+  - split; [apply subseqb_sound; exact S|]. right. unfold life_open. simpl. f_equal. exact E2.
+Qed.
